@@ -296,6 +296,26 @@ def adversarial_cases():
                 "parameters": {"k.1": {"value": 1.3}, "k.2": {"value": 0.2}, "scale.1": {"value": 1.7, "vary": False}},
                 "link_tolerance": 0.0, "link_method": "nearest", "constraints": [], "relations": [], "penalties": [], "weights": [],
                 "features": {"link_clp": True, "label_pool": pool, "adversarial": True, "n_datasets": 4, "axes": "mixed-membership"}}))
+    # a single conditionally linear parameter (one matrix column) at several global points, linked and unlinked, with and
+    # without index dependence / weights: the one shape for which a column vector is both C- and Fortran-contiguous
+    for linked in (False, True):
+        for disp in (None, "dsp.1"):
+            for weight in (None, "dataset"):
+                ds, id0 = [], 0
+                for k in range(2):
+                    t = [0.0, 0.25, 0.5, 1.0, 1.5, 2.5, 4.0, 6.0, 8.0][: 8 + k]
+                    g = [1.0, 2.0, 3.0, 4.0] if k == 0 else [3.0, 4.0, 5.0]
+                    ds.append({"label": f"ds{k + 1}", "group": "g1", "t": t, "g": g, "layout": ["mg", "gm_f"][k], "megacomplex": ["m1"], "dseed": 300 + k,
+                               "id0": id0, "weight": weight if k == 1 else None, "scale": None, "mc_scale": None})
+                    id0 += len(t) * len(g)
+                params = {"k.1": {"value": 0.7}}
+                if disp:
+                    params["dsp.1"] = {"value": 0.03, "vary": False}
+                out.append(S.jsonable_case({
+                    "datasets": ds, "megacomplexes": {"m1": {"labels": ["a"], "rates": ["k.1"], "disp": disp}}, "global_megacomplexes": {},
+                    "groups": {"g1": {"link_clp": linked, "residual_function": "variable_projection"}}, "parameters": params,
+                    "link_tolerance": 0.0, "link_method": "nearest", "constraints": [], "relations": [], "penalties": [], "weights": [],
+                    "features": {"link_clp": linked, "label_pool": "plain", "adversarial": True, "n_datasets": 2, "axes": "overlap", "single_clp": True}}))
     return out
 
 
